@@ -263,7 +263,8 @@ def dualStep' (st : DualState) (toks : List String) : Option (DualState × Strin
     let a ← st.vals.get? (← i.toNat?)
     let x := a.toF64
     let neg : Bool := x < 0.0 || (x == 0.0 && 1.0 / x < 0.0)
-    pure (st, s!"{if neg then 0 else 1} {if neg then 1 else 0}")
+    let one := s!"{if neg then 0 else 1} {if neg then 1 else 0}"
+    pure (st, one ++ " " ++ one)
   | ["neut", which, i] => do
     -- zero + x, x + zero, one * x, x * one with the type's own zero / one (a constant without variables),
     -- typed or through the Number container (whose zero / one are the floats 0 and 1)
